@@ -54,6 +54,19 @@ pub fn all(cx: &mut Ctx, iters: usize) {
             cx.eq("is_identity", &d, p.is_identity(), rp.0 == n(0));
             cx.eq("encode == spec", &d, enc(&p), encode_aff(rp));
             cx.eq("vartime_compress_to_field", &d, N::from_bytes_le(&p.vartime_compress_to_field().to_bytes()), encode_aff(rp));
+            // every conversion form of the minimal backend (C03: all ways of encoding give the specified bytes)
+            let want = le32(&encode_aff(rp));
+            let b: [u8; 32] = p.into(); cx.eq("From<Element> for [u8;32]", &d, b, want);
+            let en: Encoding = p.into(); cx.eq("From<Element> for Encoding", &d, en.0, want);
+            let en2: Encoding = (&p).into(); cx.eq("From<&Element> for Encoding", &d, en2.0, want);
+            let b2: [u8; 32] = en.into(); cx.eq("From<Encoding> for [u8;32]", &d, b2, want);
+            cx.eq("top three bits clear", &d, b[31] >> 5, 0);
+            let back = |r: Result<Element, decaf377::EncodingError>| r.ok().map(|e| enc(&e));
+            cx.eq("TryFrom<[u8;32]> for Element", &d, back(Element::try_from(want)), Some(encode_aff(rp)));
+            cx.eq("TryFrom<&[u8]> for Element", &d, back(Element::try_from(&want[..])), Some(encode_aff(rp)));
+            cx.eq("TryFrom<Encoding> for Element", &d, back(Element::try_from(Encoding(want))), Some(encode_aff(rp)));
+            cx.eq("TryFrom<&Encoding> for Element", &d, back(Element::try_from(&Encoding(want))), Some(encode_aff(rp)));
+            cx.eq("TryFrom<&[u8]> for Element (31 bytes)", &d, Element::try_from(&want[..31]).is_err(), true);
         }
     }
     // decoding
